@@ -14,8 +14,12 @@
 (* the optimizer state of epoch e has to carry is the rate TrainCtl         *)
 (* (instantiated with the run's parameters T.p) records for e; with         *)
 (* T.best_is_train "best" goes by the training metric.                      *)
+(* A model file also holds the set of parameters that was written (Ev.keys: *)
+(* the state-dict keys without the prefix a wrapper gives them); it is      *)
+(* loadable only if that is the parameter set of the live model of the      *)
+(* run's kind T.kind (TrainCtlModel: plain / DataParallel / user wrapper).  *)
 (***************************************************************************)
-EXTENDS Naturals, Integers, Sequences, FiniteSets, TLC, Json, IOUtils, TLCExt
+EXTENDS Naturals, Integers, Sequences, FiniteSets, TLC, Json, IOUtils, TLCExt, TrainCtlModel
 
 Traces == JsonDeserialize(IOEnv.TRACE_FILE)
 INF == 1000
@@ -23,7 +27,7 @@ INF == 1000
 VARIABLES i,      \* which recorded run
           pos,    \* events consumed
           hist,   \* history file: [v |-> validation metric, t |-> training metric] per row
-          fs,     \* <<kind, epoch>> -> [e |-> epoch whose state it holds, k |-> rate it carries]
+          fs,     \* <<kind, epoch>> -> [e |-> epoch whose state it holds, k |-> rate it carries, keys |-> entries]
           tmps    \* tmp id -> content
 vars == <<i, pos, hist, fs, tmps>>
 
@@ -42,15 +46,16 @@ RowsFor(h) == LET f[n \in 0..Len(h)] == IF n = 0 THEN <<>>
                                         ELSE Append(f[n - 1], TC(f[n - 1])!Update(TC(f[n - 1])!FromHist(f[n - 1]), h[n].v))
               IN f[Len(h)]
 LrkOf(e) == RowsFor(hist)[e].lrk
-Nothing == [e |-> 0, k |-> 0]
-Loadable(e) == /\ Nm("m", e) \in DOMAIN fs /\ fs[Nm("m", e)].e = e
-               /\ Nm("o", e) \in DOMAIN fs /\ fs[Nm("o", e)] = [e |-> e, k |-> LrkOf(e)]
+Nothing == [e |-> 0, k |-> 0, keys |-> {}]
+KeySet(l) == {l[j] : j \in 1..Len(l)}
+Loadable(e) == /\ Nm("m", e) \in DOMAIN fs /\ fs[Nm("m", e)].e = e /\ fs[Nm("m", e)].keys = LiveKeys(T.kind)
+               /\ Nm("o", e) \in DOMAIN fs /\ fs[Nm("o", e)] = [e |-> e, k |-> LrkOf(e), keys |-> {}]
 
 Init == /\ i \in 1..Len(Traces) /\ pos = 0 /\ hist = <<>> /\ fs = <<>> /\ tmps = <<>>
 
 \* generic primitives
 MkTmp  == Ev.op = "mktemp"  /\ tmps' = Put(tmps, Ev.t, Nothing) /\ UNCHANGED <<hist, fs>>
-Write  == Ev.op = "write"   /\ Ev.t \in DOMAIN tmps /\ tmps' = Put(tmps, Ev.t, [e |-> Ev.c, k |-> Ev.k]) /\ UNCHANGED <<hist, fs>>
+Write  == Ev.op = "write"   /\ Ev.t \in DOMAIN tmps /\ tmps' = Put(tmps, Ev.t, [e |-> Ev.c, k |-> Ev.k, keys |-> KeySet(Ev.keys)]) /\ UNCHANGED <<hist, fs>>
 Replace == /\ Ev.op = "replace" /\ Ev.t \in DOMAIN tmps
            /\ fs' = Put(fs, Nm(Ev.kind, Ev.e), tmps[Ev.t]) /\ tmps' = Drop(tmps, Ev.t) /\ UNCHANGED hist
 AppendRow == /\ Ev.op = "append" /\ Ev.e = Len(hist) + 1
